@@ -97,11 +97,15 @@ class ListV(AVal):
     over: str | None = None  # axis tag when the sequence enumerates a tensor axis (rows)
     order: tuple | None = None  # (source token, mode) for pipeline order tracking
     length: AVal | None = None
+    # a summary followed by items appended one by one outside any loop: `elem` covers everything (sound for all
+    # consumers), `head` is the generic element of the summarised prefix and `tail` the appended items, in order
+    head: AVal | None = None
+    tail: tuple = ()
 
     def __repr__(self):
         if self.items is not None:
             return f"{self.kind}{list(self.items)!r}"
-        return f"{self.kind}<{self.elem!r} over={self.over} order={self.order}>"
+        return f"{self.kind}<{self.elem!r} over={self.over} order={self.order}{' +tail' + str(len(self.tail)) if self.tail else ''}>"
 
 
 @dataclass(frozen=True)
@@ -345,9 +349,11 @@ def join(a: AVal, b: AVal) -> AVal:
     if isinstance(a, ObjV) and isinstance(b, ObjV):
         return join_objects(a, b)
     if isinstance(a, Const) and isinstance(b, TV):
-        return join(const_to_tv(a), b)
+        ta = const_to_tv(a)
+        return join(ta, b) if isinstance(ta, TV) else Unk(f"join of {a.v!r} with a value")
     if isinstance(a, TV) and isinstance(b, Const):
-        return join(a, const_to_tv(b))
+        tb = const_to_tv(b)
+        return join(a, tb) if isinstance(tb, TV) else Unk(f"join of a value with {b.v!r}")
     if isinstance(a, Const) and isinstance(b, Const):
         ta, tb = const_to_tv(a), const_to_tv(b)
         if isinstance(ta, TV) and isinstance(tb, TV):
